@@ -9,6 +9,7 @@ from concurrent.futures import ThreadPoolExecutor
 VERIF = os.path.dirname(os.path.dirname(os.path.abspath(__file__)))
 REPO = "/repo"
 GENS = ["GenConsts.v", "GenBuzTable.v", "GenSha.v", "GenStatics.v"]
+REF = "/tmp/seedgen_ref"      # what the translator generates for the unchanged /repo
 
 
 def sh(cmd, **kw):
@@ -33,7 +34,8 @@ def one(name):
         env = dict(os.environ, VERIF_REPO=wt, VERIF_GEN_DIR=gd)
         r = sh([sys.executable, os.path.join(VERIF, "tools", "gen_consts.py")], env=env, timeout=600)
         same = r.returncode == 0 and all(os.path.exists(os.path.join(gd, g)) and
-                                         filecmp.cmp(os.path.join(gd, g), os.path.join(VERIF, "coq", "Gen", g), shallow=False) for g in GENS)
+                                         filecmp.cmp(os.path.join(gd, g), os.path.join(REF, g), shallow=False) and
+                                         filecmp.cmp(os.path.join(REF, g), os.path.join(VERIF, "coq", "Gen", g), shallow=False) for g in GENS)
         shutil.rmtree(gd, ignore_errors=True)
         if not same:
             return name, "serial", "generated files differ"
@@ -63,6 +65,10 @@ def main():
     if args[:1] == ["-j"]:
         j = int(args[1]); args = args[2:]
     names = args or sorted(os.listdir(os.path.join(VERIF, "seeded")), key=lambda n: (n.split("-")[0], int(n.split("-")[1])))
+    shutil.rmtree(REF, ignore_errors=True)
+    os.makedirs(REF)
+    sh([sys.executable, os.path.join(VERIF, "tools", "gen_consts.py")], env=dict(os.environ, VERIF_GEN_DIR=REF), timeout=600)
+    sh([sys.executable, os.path.join(VERIF, "tools", "gen_consts.py")], timeout=600)      # coq/Gen as for /repo
     serial = []
     with ThreadPoolExecutor(max_workers=j) as ex:
         for name, verdict, info in ex.map(one, names):
